@@ -160,7 +160,19 @@ func CheckC19(t Target, src *choice.Src, st *Stats) *Violation {
 				opens = append(opens, o.Seq)
 			}
 		}
-		if len(opens) > 0 {
+		var wops []simrt.Op
+		for _, o := range ref.Ops {
+			switch o.Kind {
+			case "create-temp", "write", "close-w", "rename", "chmod", "open-w":
+				wops = append(wops, o)
+			}
+		}
+		if len(wops) > 0 && src.Bool("fault.writepath") {
+			// a fault on the write path: the regenerate may fail (file intact) or fall back and succeed
+			// (file complete) - never anything in between
+			o := wops[src.Draw("fault.wop", len(wops))]
+			w.Faults = []simrt.Fault{{At: o.Seq, OpKind: o.Kind, Kind: choice.Pick(src, "fault.wkind", faultKinds[o.Kind]), Arg: src.Draw("fault.warg", 200)}}
+		} else if len(opens) > 0 {
 			w.Faults = []simrt.Fault{{At: opens[src.Draw("fault.file", len(opens))], OpKind: "open-r", Kind: choice.Pick(src, "fault.kind", []string{"EACCES", "EIO", "ENOENT"})}}
 		}
 	}
@@ -193,8 +205,17 @@ func judgeC19(w *World, r *Result) *Violation {
 		if r.Exit != 0 && !r.Out.Same(r.OutBefore) {
 			return mk("failed-regenerate-damaged-checked-in-file", fmt.Sprintf("regenerating with an unreadable input failed (exit %d) and changed %s: before %s, after %s", r.Exit, w.Out, obs(r.OutBefore), obs(r.Out)))
 		}
-		if r.Exit == 0 {
+		readFault := false
+		for _, f := range r.Fired {
+			if f.OpKind == "open-r" || f.OpKind == "read" {
+				readFault = true
+			}
+		}
+		if r.Exit == 0 && readFault {
 			return mk("regenerate-ignored-unreadable-input", "an input of the self-configuration could not be read and the command still exited 0")
+		}
+		if r.Exit == 0 && stripVersion(r.Out.Data) != selfRef {
+			return mk("regenerate-with-write-fault-left-a-wrong-file", "a write-path fault was survived (exit 0) but the file is not the regenerated source\n"+firstDiff(selfRef, stripVersion(r.Out.Data)))
 		}
 		return nil
 	}
